@@ -22,6 +22,8 @@ type zzFrame struct {
 // auto-answering stub server (a handler whose reply encodes to zero bytes)
 const zzEmptyReplyMarker = 0xEE
 
+const zzNoStreamMethod = "zz: no such stream method"
+
 var errZZWrite = errors.New("zz: write failed")
 var errZZRead = errors.New("zz: read failed")
 
@@ -40,6 +42,10 @@ type zzMsgs struct {
 	addr     string
 	auto     bool // answer every request at once as a correct server would (ping: empty; call: 'R'+args)
 	autoPing bool // answer heartbeats at once, leave everything else to the harness (written to out)
+	// autoStreams: with auto, play a correct server for every request form: an open-stream request is
+	// acknowledged for method S.Watch and answered with an error for any other method, a close-stream
+	// request is acknowledged, a stream message is not answered
+	autoStreams bool
 }
 
 func newZZMsgs(capIn int) *zzMsgs {
@@ -105,7 +111,21 @@ func (m *zzMsgs) WriteMessage(b []byte) error {
 			if len(r.Upgrade) == 0 && !(len(r.Args) > 0 && r.Args[0] == zzEmptyReplyMarker) {
 				reply = zzReplyFor(r.Args)
 			}
-			m.in <- zzFrame{data: zzResponse(r.Seq, "", reply)}
+			errText := ""
+			answer := true
+			if m.autoStreams && len(r.Upgrade) == 1 {
+				switch r.Upgrade[0] {
+				case zzUpgOpenStream:
+					if r.ServiceMethod != "S.Watch" {
+						errText = zzNoStreamMethod
+					}
+				case zzUpgStreaming:
+					answer = false
+				}
+			}
+			if answer {
+				m.in <- zzFrame{data: zzResponse(r.Seq, errText, reply)}
+			}
 		}
 	}
 	m.mu.Unlock()
